@@ -1,0 +1,220 @@
+//go:build verif
+
+// Two more cheating provers for the external verification harness (/verif, property C17); see verif_forge.go.
+// Compiled only with the build tag verif; nothing in the library refers to them.
+//
+// VerifForgeSquareWrap: the bases-are-squares part accepts bases that are NOT squares modulo n, for a genuine safe-prime
+// modulus, an honestly chosen group and nonzero commitments: the roots r_i and the quotients k_i of r_i*r_i = s_i + k_i*n are
+// range-limited to about |n|+258 bits each, but the relation is only checked in the exponent, i.e. modulo the group order M of
+// about |n|+521 bits, and r_i*r_i (2|n| bits and more) may wrap around M. The prover takes r_i = sqrt(s_i + j*M mod n) for a
+// small j that makes this a square and k_i = (r_i^2 - s_i - j*M)/n.
+package keyproof
+
+import (
+	"errors"
+
+	"github.com/privacybydesign/gabi/big"
+	"github.com/privacybydesign/gabi/internal/common"
+	"github.com/privacybydesign/gabi/zkproof"
+)
+
+// VerifForgeTrapdoorGroup: proof for n = (2a^e+1)(2b+1). The prover commits to fakePprime (a genuine prime of the right size that has
+// nothing to do with n) as (p-1)/2, to 2*fakePprime+1 as p, and to the true b, 2b+1 as (q-1)/2, q. Everything is computed
+// with the package's own prover functions for these values; the part modulo n is answered for the true factorisation.
+// The only relation that is false for the committed values is p*q = n. If trapdoor != nil (= log_g h) the secret "pqnrel"
+// is chosen so that g^n = p^q * h^-pqnrel holds nevertheless; otherwise it is the honest r_p*q.
+func VerifForgeTrapdoorGroup(GroupPrime *big.Int, trapdoor *big.Int, a *big.Int, e int, b, fakePprime *big.Int, bases []*big.Int) (ValidKeyProof, *big.Int, error) {
+	one := big.NewInt(1)
+	Pp, Qp := verifPow(a, e), b // true (P-1)/2 (composite) and (Q-1)/2
+	P := new(big.Int).Add(new(big.Int).Lsh(Pp, 1), one)
+	Q := new(big.Int).Add(new(big.Int).Lsh(Qp, 1), one)
+	n := new(big.Int).Mul(P, Q)
+	s := NewValidKeyProofStructure(n, bases)
+	g, ok := zkproof.BuildGroup(GroupPrime)
+	if !ok {
+		return ValidKeyProof{}, nil, errors.New("group")
+	}
+
+	fakeP := new(big.Int).Add(new(big.Int).Lsh(fakePprime, 1), one)
+	list, PprimeSecret := s.pprime.commitmentsFromSecrets(g, nil, fakePprime)
+	list, QprimeSecret := s.qprime.commitmentsFromSecrets(g, list, Qp)
+	list, PSecret := s.p.commitmentsFromSecrets(g, list, fakeP)
+	list, QSecret := s.q.commitmentsFromSecrets(g, list, Q)
+
+	// honest value: r_p * q
+	pqn := new(big.Int).Mul(PSecret.hider.secretv, Q)
+	if trapdoor != nil {
+		// g^n = (g^fakeP h^r_p)^q * h^-s  <=>  s = r_p*q - (n - fakeP*q)/trapdoor  (mod group order)
+		d := new(big.Int).Sub(n, new(big.Int).Mul(fakeP, Q))
+		d.Mul(d, new(big.Int).ModInverse(trapdoor, g.Order))
+		pqn.Sub(pqn, d)
+	}
+	PQNRel := newSecret(g, "pqnrel", pqn.Mod(pqn, g.Order))
+
+	bases2 := zkproof.NewBaseMerge(&g, &PSecret, &QSecret, &PprimeSecret, &QprimeSecret)
+	secrets := zkproof.NewSecretMerge(&PSecret, &QSecret, &PprimeSecret, &QprimeSecret, &PQNRel)
+
+	list = append(list, GroupPrime, s.n)
+	list = s.pPprimeRel.CommitmentsFromSecrets(g, list, &bases2, &secrets)
+	list = s.qQprimeRel.CommitmentsFromSecrets(g, list, &bases2, &secrets)
+	list = s.pQNRel.CommitmentsFromSecrets(g, list, &bases2, &secrets)
+	list, PprimeIsPrimeCommit := s.pprimeIsPrime.commitmentsFromSecrets(g, list, &bases2, &secrets) // honest: fakePprime is prime
+	list, QprimeIsPrimeCommit := s.qprimeIsPrime.commitmentsFromSecrets(g, list, &bases2, &secrets) // honest: b is prime
+	tail, BasesValidCommit := s.basesValid.commitmentsFromSecrets(g, nil, P, Q)                     // honest (true factors of n)
+
+	phi := new(big.Int).Lsh(new(big.Int).Mul(Pp, Qp), 2)
+	var challenge *big.Int
+	var qspp QuasiSafePrimeProductProof
+	found := false
+	for try := 0; try < 400 && !found; try++ {
+		mid, qc := quasiSafePrimeProductBuildCommitments(nil, Pp, Qp)
+		challenge = common.HashCommit(append(append(append([]*big.Int{}, list...), mid...), tail...), false)
+		qspp.ASPPproof, found = verifASPP(a, e, b, n, challenge, qc.asppCommit)
+	}
+	if !found {
+		return ValidKeyProof{}, nil, errors.New("no answerable ASPP challenge")
+	}
+	qspp.SFproof = squareFreeBuildProof(n, phi, challenge, big.NewInt(0))
+	qspp.PPPproof = primePowerProductBuildProof(P, Q, challenge, big.NewInt(1))
+	qspp.DPPproof = disjointPrimeProductBuildProof(P, Q, challenge, big.NewInt(2))
+
+	return ValidKeyProof{
+		GroupPrime:         GroupPrime,
+		Challenge:          challenge,
+		PQNRel:             PQNRel.buildProof(g, challenge),
+		PProof:             s.p.buildProof(g, challenge, PSecret),
+		QProof:             s.q.buildProof(g, challenge, QSecret),
+		PprimeProof:        s.pprime.buildProof(g, challenge, PprimeSecret),
+		QprimeProof:        s.qprime.buildProof(g, challenge, QprimeSecret),
+		PprimeIsPrimeProof: s.pprimeIsPrime.buildProof(g, challenge, PprimeIsPrimeCommit, &secrets),
+		QprimeIsPrimeProof: s.qprimeIsPrime.buildProof(g, challenge, QprimeIsPrimeCommit, &secrets),
+		QSPPproof:          qspp,
+		BasesValidProof:    s.basesValid.buildProof(g, challenge, BasesValidCommit),
+	}, n, nil
+}
+
+// isSquareProofStructure.commitmentsFromSecrets with the committed values of the squares and of the roots handed in
+// (the library computes roots with ModSqrt and commits to the squares as they are); otherwise the same statements.
+func verifIsSquareCommitWrapped(s *isSquareProofStructure, g zkproof.Group, list []*big.Int, squareVals, roots []*big.Int) ([]*big.Int, isSquareProofCommit) {
+	commit := isSquareProofCommit{
+		squares:         make([]pedersenCommit, len(s.squares)),
+		roots:           make([]pedersenCommit, len(s.squares)),
+		rootRangeCommit: make([]rangeCommit, len(s.squares)),
+		rootValidCommit: make([]multiplicationProofCommit, len(s.squares)),
+	}
+	for i := range s.squares {
+		list, commit.squares[i] = s.squaresPedersen[i].commitmentsFromSecrets(g, list, squareVals[i]) // s_i + j_i*M: the same group element as s_i
+	}
+	for i := range s.squares {
+		list, commit.roots[i] = s.rootsRep[i].commitmentsFromSecrets(g, list, roots[i])
+	}
+	list, commit.n = s.nPedersen.commitmentsFromSecrets(g, list, s.n)
+
+	var baseList []zkproof.BaseLookup
+	var secretList []zkproof.SecretLookup
+	for i := range commit.squares {
+		baseList = append(baseList, &commit.squares[i])
+		secretList = append(secretList, &commit.squares[i])
+	}
+	for i := range commit.roots {
+		baseList = append(baseList, &commit.roots[i])
+		secretList = append(secretList, &commit.roots[i])
+	}
+	baseList = append(baseList, &commit.n)
+	secretList = append(secretList, &commit.n)
+	baseList = append(baseList, &g)
+	bases := zkproof.NewBaseMerge(baseList...)
+	secrets := zkproof.NewSecretMerge(secretList...)
+
+	list = append(list, s.n)
+	list = append(list, s.squares...)
+	list = s.nRep.CommitmentsFromSecrets(g, list, &bases, &secrets)
+	for i := range s.squaresRep {
+		list = s.squaresRep[i].CommitmentsFromSecrets(g, list, &bases, &secrets)
+	}
+	for i := range s.rootsRange {
+		list, commit.rootRangeCommit[i] = s.rootsRange[i].commitmentsFromSecrets(g, list, &bases, &secrets)
+	}
+	for i := range s.rootsValid {
+		list, commit.rootValidCommit[i] = s.rootsValid[i].commitmentsFromSecrets(g, list, &bases, &secrets)
+	}
+	return list, commit
+}
+
+// ValidKeyProofStructure.BuildProof, honest for the genuine safe primes 2*Pprime+1, 2*Qprime+1, except that the
+// bases-are-squares part is built by rtIsSquareCommit for "roots" modulo the group order. wrap=false: j = 0 (only
+// possible for genuine squares; for the others the root of s+j*M is committed but the square is committed as s).
+// VerifForgeSquareWrap: see the comment above. Returns the largest bit length of the (negative) quotients k_i it used.
+func VerifForgeSquareWrap(s *ValidKeyProofStructure, GroupPrime, Pprime, Qprime *big.Int, wrap bool) (ValidKeyProof, int, error) {
+	maxK := 0
+	g, gok := zkproof.BuildGroup(GroupPrime)
+	if !gok {
+		return ValidKeyProof{}, 0, errors.New("group")
+	}
+	P := new(big.Int).Add(new(big.Int).Lsh(Pprime, 1), big.NewInt(1))
+	Q := new(big.Int).Add(new(big.Int).Lsh(Qprime, 1), big.NewInt(1))
+
+	// the cheating part: for every base s find j with s + j*M a square modulo n
+	var squareVals, roots []*big.Int
+	for i, sq := range s.basesValid.squares {
+		for j := int64(0); ; j++ {
+			v := new(big.Int).Add(sq, new(big.Int).Mul(big.NewInt(j), g.Order))
+			if big.Jacobi(new(big.Int).Mod(v, P), P) == 1 && big.Jacobi(new(big.Int).Mod(v, Q), Q) == 1 {
+				root, ok := common.ModSqrt(new(big.Int).Mod(v, s.n), []*big.Int{P, Q})
+				if !ok {
+					return ValidKeyProof{}, 0, errors.New("sqrt")
+				}
+				k := new(big.Int).Sub(new(big.Int).Mul(root, root), v)
+				k.Div(k, s.n)
+				if k.BitLen() > maxK {
+					maxK = k.BitLen()
+				}
+				_ = i
+				if !wrap {
+					v = sq
+				}
+				squareVals, roots = append(squareVals, v), append(roots, root)
+				break
+			}
+		}
+	}
+
+	list, PprimeSecret := s.pprime.commitmentsFromSecrets(g, nil, Pprime)
+	list, QprimeSecret := s.qprime.commitmentsFromSecrets(g, list, Qprime)
+	list, PSecret := s.p.commitmentsFromSecrets(g, list, P)
+	list, QSecret := s.q.commitmentsFromSecrets(g, list, Q)
+	PQNRel := newSecret(g, "pqnrel", new(big.Int).Mod(new(big.Int).Mul(PSecret.hider.secretv, QSecret.secretv.secretv), g.Order))
+	bases := zkproof.NewBaseMerge(&g, &PSecret, &QSecret, &PprimeSecret, &QprimeSecret)
+	secrets := zkproof.NewSecretMerge(&PSecret, &QSecret, &PprimeSecret, &QprimeSecret, &PQNRel)
+
+	var PprimeIsPrimeCommit, QprimeIsPrimeCommit primeProofCommit
+	var QSPPcommit quasiSafePrimeProductCommit
+	var BasesValidCommit isSquareProofCommit
+	list = append(list, GroupPrime)
+	list = append(list, s.n)
+	list = s.pPprimeRel.CommitmentsFromSecrets(g, list, &bases, &secrets)
+	list = s.qQprimeRel.CommitmentsFromSecrets(g, list, &bases, &secrets)
+	list = s.pQNRel.CommitmentsFromSecrets(g, list, &bases, &secrets)
+	list, PprimeIsPrimeCommit = s.pprimeIsPrime.commitmentsFromSecrets(g, list, &bases, &secrets)
+	list, QprimeIsPrimeCommit = s.qprimeIsPrime.commitmentsFromSecrets(g, list, &bases, &secrets)
+	list, QSPPcommit = quasiSafePrimeProductBuildCommitments(list, Pprime, Qprime)
+	list, BasesValidCommit = verifIsSquareCommitWrapped(&s.basesValid, g, list, squareVals, roots) // <- instead of s.basesValid.commitmentsFromSecrets(g, list, P, Q)
+
+	challenge := common.HashCommit(list, false)
+	return ValidKeyProof{
+		GroupPrime:         GroupPrime,
+		PQNRel:             PQNRel.buildProof(g, challenge),
+		PProof:             s.p.buildProof(g, challenge, PSecret),
+		QProof:             s.q.buildProof(g, challenge, QSecret),
+		PprimeProof:        s.pprime.buildProof(g, challenge, PprimeSecret),
+		QprimeProof:        s.qprime.buildProof(g, challenge, QprimeSecret),
+		Challenge:          challenge,
+		PprimeIsPrimeProof: s.pprimeIsPrime.buildProof(g, challenge, PprimeIsPrimeCommit, &secrets),
+		QprimeIsPrimeProof: s.qprimeIsPrime.buildProof(g, challenge, QprimeIsPrimeCommit, &secrets),
+		QSPPproof:          quasiSafePrimeProductBuildProof(Pprime, Qprime, challenge, QSPPcommit),
+		BasesValidProof:    s.basesValid.buildProof(g, challenge, BasesValidCommit),
+	}, maxK, nil
+}
+
+// VerifFindSafePrime is the group prime the honest prover takes for a given size.
+var VerifFindSafePrime = findSafePrime
